@@ -67,6 +67,7 @@ FilesC11 == {
   [D EXCEPT !.fmt = "cmdfile", !.out = "file", !.dsmax = "min"],
   [D EXCEPT !.fmt = "cmdfile", !.out = "file", !.logmax = "min"],
   [D EXCEPT !.fmt = "cmdfile", !.out = "file", !.logmax = "min", !.errlog = "yes"],
+  [D EXCEPT !.fmt = "cmdfile", !.out = "filebad", !.logmax = "min", !.errlog = "yes"],      \* the error report itself cannot be delivered
   [D EXCEPT !.fmt = "cmdfile", !.out = "devlog", !.fac = "local3", !.lvl = "debug", !.ident = "static"],
   [D EXCEPT !.fmt = "cmdfile", !.out = "devlog"],
   [D EXCEPT !.fmt = "cmdfile", !.out = "file", !.chain = "drop"],
